@@ -33,7 +33,8 @@ import time
 
 from common import LEAN_DIR, lean_list, lean_str, use_repo, write_if_changed
 
-HAZARDS = ["strRaises", "reprRaises", "attrReadRaises", "attrWriteRaises", "synNoLine", "synNoSource"]
+HAZARDS = ["strRaises", "reprRaises", "attrReadRaises", "attrWriteRaises", "synNoLine", "synNoSource", "truthRaises",
+           "attrMissingRaises"]
 
 HAZARD_PROGRAMS = {
     "strRaises": "class E(Exception):\n    def __str__(self):\n        raise ValueError('no')\nraise E()\n",
@@ -42,6 +43,8 @@ HAZARD_PROGRAMS = {
     "attrWriteRaises": "class E(Exception):\n    def __setattr__(self, k, v):\n        raise ValueError('no')\nraise E()\n",
     "synNoLine": "raise SyntaxError('no position')\n",
     "synNoSource": "raise SyntaxError('elsewhere', ('not_a_student_file.py', 7, 2, 'abc'))\n",
+    "attrMissingRaises": "class E(Exception):\n    def __getattr__(self, k):\n        raise ValueError('no')\nraise E()\n",
+    "truthRaises": "class E(Exception):\n    def __bool__(self):\n        raise ValueError('no')\nraise E()\n",
 }
 
 
